@@ -429,6 +429,9 @@ def run(harness, args, workdir, timeout=900, forced_enosys=False):
     for p in (st, marks):
         if os.path.exists(p):
             os.unlink(p)
+    # the harness appends to the marks file from inside the recorded windows — with `--unpriv` as uid 65534
+    open(marks, "w").close()
+    os.chmod(marks, 0o666)
     env = dict(os.environ, VERIF_STRACE_MARK=marks)
     cmd = ["strace", "-f", "-qq", "-X", "raw", "-xx", "-s", "70000", "-o", st, harness] + args
     p = subprocess.run(cmd, env=env, stdout=subprocess.DEVNULL, stderr=subprocess.PIPE, timeout=timeout)
@@ -463,6 +466,8 @@ def run(harness, args, workdir, timeout=900, forced_enosys=False):
                 continue
             if cur is not None:
                 win.append(sc)
+    if not rec and per:
+        res["mismatches"].append({"window": -1, "what": ["no recorded window at all: the marks file stayed empty"]})
     missing = sorted(set(rec) - seen)
     if missing:
         res["mismatches"].append({"window": missing[0], "what": [f"{len(missing)} recorded windows were not found in the strace output"]})
